@@ -1,0 +1,33 @@
+/* verifhooks.h
+ *
+ * Test/verification hooks. Nothing in this header is compiled unless the
+ * library is built with -DLIBSCIENTIFIC_VERIF.
+ */
+#ifndef VERIFHOOKS_H
+#define VERIFHOOKS_H
+#ifdef LIBSCIENTIFIC_VERIF
+#include <stddef.h>
+
+/* H1: if > 0, GetNProcessor reports this number of processors. */
+extern size_t libsci_verif_nproc;
+
+/* H2: called at the entry (phase 0) and just before the return (phase 1) of
+ * srand_ (op 0), rand_ (op 1), randInt (op 2), randDouble (op 3). */
+extern void (*libsci_verif_rng_hook)(int op, unsigned int arg, int phase);
+
+/* H3: called once per iteration of the NIPALS loops of PCA (site 0),
+ * LVCalc (site 1), CPCA (site 2) and of the KMeansppCenters selection
+ * loop (site 3). */
+extern void (*libsci_verif_tick)(int site);
+
+/* H4: called by random_kfold_group_generator with the group matrix it
+ * built and the seed it used. */
+extern void (*libsci_verif_fold_hook)(const void *gid, unsigned int seed);
+
+#define LIBSCI_VERIF_TICK(site) do{ if(libsci_verif_tick != NULL) libsci_verif_tick(site); }while(0)
+#define LIBSCI_VERIF_RNG(op, arg, phase) do{ if(libsci_verif_rng_hook != NULL) libsci_verif_rng_hook(op, arg, phase); }while(0)
+#else
+#define LIBSCI_VERIF_TICK(site)
+#define LIBSCI_VERIF_RNG(op, arg, phase)
+#endif
+#endif
